@@ -118,9 +118,21 @@ def _task(t):
         else:
             inp = [H.fixedpoint.PrivValFxp(v) for v in msg]
             plain = [v * 4 for v in msg]
+        n_in = len(inp)
         out = ph.poseidon_hash(inp)
         want = RP.sponge_hash(plain, C, p)
         got = [x.value % p for x in out]
+        if len(inp) != n_in:
+            bad("caller-list-modified", "poseidon_hash changed the caller's message list from %d to %d elements" % (n_in, len(inp)))
+        if typ == "int" and len(msg) in (1, 4):
+            # history: the same list object hashed a second time in the same run
+            c1 = len(H.R.cons)
+            out2 = ph.poseidon_hash(inp)
+            if [x.value % p for x in out2] != want:
+                bad("second-hash-of-same-list-differs", "hashing the same list object twice gives different digests for %s" % (list(msg),))
+            if len(H.R.cons) - c1 != c1:
+                bad("second-hash-different-constraint-count", "first hash %d constraints, second %d" % (c1, len(H.R.cons) - c1))
+            del H.R.cons[c1:]
         ncons = (len(msg) // 4, len(H.R.cons) - (len(msg) if typ == "bool" else 0))
         st["transitions"] += len(H.R.cons)
         st["compared"] += 1
